@@ -25,7 +25,7 @@ DICT = ["n", "m"]
 def gen_d(rng, tag):
     d = {}
     for k in rng.sample(LEAF, rng.randint(0, 3)):
-        d[k] = rng.choice([f"{tag}{k}", rng.randint(0, 99), f"{tag} x", True, None, 2.5, "1", "it's", "a;b", ""])
+        d[k] = rng.choice([f"{tag}{k}", rng.randint(0, 99), f"{tag} x", True, None, 2.5, "1", "it's", "a;b", "", f"${k}Ref", f"${k}_inf * 2", f"${k}"])
     for k in rng.sample(DICT, rng.randint(0, 2)):
         sub = {kk: rng.choice([f"{tag}.{kk}", rng.randint(0, 9), [1, tag]]) for kk in rng.sample(["p", "q", "r"], rng.randint(0, 3))}
         if rng.random() < 0.3:
@@ -42,7 +42,7 @@ def fold(seq, foam=False):
     for mode, d in seq:
         nd = spec.norm(c10.drop_underscore(d) if foam else d)
         if cur is not None and mode == "a":
-            cur = spec.merge_first_wins(cur, nd)
+            cur = spec.merge_first_wins_selfref(cur, nd)
         else:
             cur = nd
         out.append(copy.deepcopy(cur))
